@@ -121,6 +121,61 @@ struct Wide {
   }
 };
 
+// ---- wide key domains (modes iw / sw): key codes 1..24 map to keys chosen to expose hash / modulus / bit-trick structure.
+// Code 1 is a base key; code 1+j (j = 1..16) agrees with it in exactly the j low bits of std::hash (so they collide
+// modulo every 2^i, i <= j, and differ modulo 2^(j+1)); the rest are negatives, extremes and a second colliding pair.
+//   ints   : 1, 1+2^j (j=1..16), -1, -65, INT_MAX, INT_MIN, 0, 64, 65536          (std::hash<int> is the identity)
+//   strings: "color", then for each j the first "p<i>" whose std::hash has exactly the j low bits of hash("color"),
+//            "k", "", a long name, and the first "q<i>" colliding with "k" modulo 64  - computed at start-up with
+//            the platform's std::hash (deterministic with libstdc++), printed by `--pool` for the generator to verify
+#include <climits>
+#include <functional>
+struct KeyIW {
+  static int enc(long c)
+  {
+    if (c >= 1 && c <= 17) return c == 1 ? 1 : 1 + (int)(1L << (c - 1));
+    static const int rest[7] = {-1, -65, INT_MAX, INT_MIN, 0, 64, 65536};
+    return (c >= 18 && c <= 24) ? rest[c - 18] : (int)c + 100000;
+  }
+  static long dec(const int &k) { for (long c = 1; c <= 24; ++c) if (enc(c) == k) return c; return (long)k - 100000; }
+};
+struct KeySW {
+  static std::vector<std::string> &pool()
+  {
+    static std::vector<std::string> p;
+    if (p.empty()) {
+      std::hash<std::string> H;
+      p.resize(25);
+      p[1] = "color";
+      size_t h1 = H(p[1]);
+      for (int j = 1; j <= 16; ++j) {
+        size_t lo = ((size_t)1 << j) - 1, bit = (size_t)1 << j;
+        for (long i = 0; i < 20000000; ++i) {
+          std::string cand = "p" + std::to_string(i);
+          size_t h = H(cand);
+          if ((h & lo) == (h1 & lo) && (h & bit) != (h1 & bit)) { p[1 + j] = cand; break; }
+        }
+      }
+      p[18] = "k"; p[19] = ""; p[20] = std::string(40, 'z') + "radiusScale"; p[21] = "K"; p[22] = "color "; p[23] = "colo";
+      size_t hk = H(p[18]);
+      for (long i = 0; i < 20000000; ++i) { std::string cand = "q" + std::to_string(i); if ((H(cand) & 63) == (hk & 63)) { p[24] = cand; break; } }
+    }
+    return p;
+  }
+  static std::string enc(long c) { return (c >= 1 && c <= 24) ? pool()[c] : "w" + std::to_string(c); }
+  static long dec(const std::string &s)
+  {
+    for (long c = 1; c <= 24; ++c) if (pool()[c] == s) return c;
+    return std::stol(s.substr(1));
+  }
+  static std::string table()
+  {
+    std::ostringstream o; std::hash<std::string> H;
+    for (long c = 1; c <= 24; ++c) o << (c > 1 ? "," : "") << c << "=" << H(pool()[c]);
+    return o.str();
+  }
+};
+
 static std::vector<std::string> split(const std::string &s, char d)
 {
   std::vector<std::string> r; std::string t; std::istringstream is(s);
@@ -374,6 +429,7 @@ int main(int argc, char **argv)
     else if (mode == "sc") std::cout << Wide<std::string, KeySC>::table() << "\n";
     return 0;
   }
+  if (argc > 2 && std::string(argv[2]) == "--pool") { std::cout << KeySW::table() << "\n"; return 0; }
 #endif
   std::string line;
   while (std::getline(std::cin, line)) {
@@ -388,6 +444,8 @@ int main(int argc, char **argv)
       if (mode == "ii") std::cout << runF<int, int, KeyI>(ops) << "\n";
 #ifndef C10_FM_MIN      // fallback build: FlatMap<int,int> only, when another instantiation no longer compiles
       else if (mode == "ss") std::cout << runF<std::string, std::string, KeyS>(ops) << "\n";
+      else if (mode == "iw") std::cout << runF<int, int, KeyIW>(ops) << "\n";
+      else if (mode == "sw") std::cout << runF<std::string, int, KeySW>(ops) << "\n";
       else if (mode == "if") std::cout << runF<int, float, KeyI>(ops) << "\n";
       else if (mode == "ih") std::cout << runF<int, Shadow, KeyI>(ops) << "\n";
       else std::cout << runF<std::string, std::vector<int>, KeyS>(ops) << "\n";
